@@ -436,6 +436,37 @@ def op_setnorm(st, o):
     return "norm-set"
 
 
+@op("F.setnorm_bad")
+def op_setnorm_bad(st, o):
+    """A norm specification that is refused (wrong type, wrong shape, a user function failing at
+    its k-th call). No claimed property says what state the field is left in (the unchanged
+    library leaves it normalised to 1), so the state is ADOPTED; what C15 does say is checked by
+    the steps that follow: zero cells stay zero, later updates store exactly the new values."""
+    h = st.h[o["on"]]
+    if h.kind != "F" or h.meta.get("dtype") in ("int", "bool") or not np.all(np.isfinite(h.fm.array)):
+        return "skipped"
+    mm = h.box.v
+    how = o["how"]
+    if how == "str":
+        val = "abc"
+    elif how == "shape":
+        val = np.ones([k + 1 for k in mm.n] + [1])
+    else:
+        total = math.prod(mm.n)
+        tab = make_array({"kind": "const", "value": 2.0, "shape": [*mm.n, 1]})
+        val = CellFn(mm, tab, {"k": 1 + (o.get("k", 1) - 1) % total, "how": "raise"}, scalar_ok=True)
+    res = sut(setattr, h.obj, "norm", val)
+    st.stats.fault("callback_fault" if how == "fn" else "rejected_args")
+    st.stats.hit("observed/refused_norm:" + ("raised" if res.raised else "accepted"))
+    got = np.asarray(h.obj.array)
+    if got.shape != h.fm.array.shape:
+        raise Violation("norm.shape", f"array shape {got.shape} after a refused norm assignment, was {h.fm.array.shape}", kind="value")
+    h.fm.array = np.array(got, copy=True)
+    h.fm.vtol = 0.0
+    st.stats.probe("refused_norm")
+    return "norm-refused" if res.raised else "norm-accepted"
+
+
 @op("F.getnorm")
 def op_getnorm(st, o):
     h = st.h[o["on"]]
